@@ -1203,6 +1203,53 @@ def m_zip(ctx, args):
     return ("iter", ("zip", a[1], b[1])) if a[0] == "iter" and b[0] == "iter" else ("call", ctx.oq, (a, b))
 
 
+@model("std::iter::zip")
+def m_zip_fn(ctx, args):
+    """`std::iter::zip(a, b)`: both arguments are IntoIterator."""
+    a, b = as_iter(ctx, args[0], 0), as_iter(ctx, args[1], 1)
+    if a[0] != "iter":
+        a = m_into_iter_value(ctx, a, ctx.arg_ty(0))
+    if b[0] != "iter":
+        b = m_into_iter_value(ctx, b, ctx.arg_ty(1))
+    return ("iter", ("zip", a[1], b[1])) if a[0] == "iter" and b[0] == "iter" else ("call", ctx.oq, (a, b))
+
+
+@model("std::array::from_fn")
+def m_array_from_fn(ctx, args):
+    """`array::from_fn(f)`: [f(0), f(1), .., f(N-1)], calls made in index order."""
+    eng = ctx.eng
+    dst = ctx.dest_ty()
+    n = dst[2] if dst is not None and dst[0] == "array" else None
+    if isinstance(n, tuple) and n and n[0] in ("cparam", "const"):
+        n = n[1]
+    if isinstance(n, int) and n <= 8:
+        puid = next(eng.nuid)
+        out = []
+        for kk in range(n):
+            eng.binders.append(puid)
+            eng.unroll[puid] = (kk, n, None)
+            try:
+                out.append(call_closure(ctx, args[0], [("int", kk)]))
+            finally:
+                eng.binders.pop()
+                eng.unroll.pop(puid, None)
+        return ("array", tuple(out))
+    if n is None:
+        return ("call", ctx.oq, tuple(args))
+    hi = ("int", n) if isinstance(n, int) else ("cparam", n)
+    return realise(ctx, ("map", args[0], next(eng.nuid), ("range", ("int", 0), hi)))
+
+
+@model("std::array::each_ref", "std::array::each_mut")
+def m_each_ref(ctx, args):
+    """`xs.each_ref()`: the array of references to the elements (references are transparent here)."""
+    v, _, _ = array_like(ctx, args[0])
+    t = ctx.arg_ty(0)
+    if t is not None and strip_refs(t)[0] == "array" and vec_len(ctx.eng, v) is None:
+        ctx.eng.lens[v] = strip_refs(t)[2]
+    return v
+
+
 def m_into_iter_value(ctx, a, t):
     v, through_ref, mr = array_like(ctx, a)
     if v[0] == "iter":
@@ -1642,6 +1689,8 @@ def m_index(ctx, args):
         return ("refv", v)
     if idx[0] == "struct" and idx[1].endswith("RangeFrom"):
         _slice_obligation(ctx, v, idx[3][0], None)
+        if mutable and idx[3][0][0] == "int":
+            return ("ref", mr[1], mr[2] + (("srange", idx[3][0][1], None),))
         return ("refv", ("slice_of", v, idx[3][0], ("end",)))
     n = vec_len(eng, v)
     t = ctx.arg_ty(0)
@@ -1685,6 +1734,13 @@ def m_copy_from_slice(ctx, args):
             hi = seq_len(whole, ctx.eng.lens)
         if isinstance(hi, int):
             dstv = ("repeat", ("int", 0), hi - lo)
+            # past this call the source has exactly the destination's length (otherwise the call panicked: that is
+            # the CopyFromSlice obligation recorded below)
+            core = src
+            while core[0] in ("copied", "refv", "deref"):
+                core = core[1]
+            if seq_len(core, ctx.eng.lens) is None:
+                ctx.eng.lens[core] = hi - lo
     ctx.eng.obligations.append({
         "kind": "CopyFromSlice", "pc": ctx.st.pc, "cond": None, "expected": None, "ops": [dstv, src],
         "site": ctx.site, "ln": ctx.term["ln"], "callpath": ctx.fr.callpath, "exp": ctx.term["exp"]})
